@@ -400,6 +400,15 @@ def oracle(inp):
   e = pfs[0].compute_probability_of_success(xs) * pfs[1].compute_probability_of_success(xs)
   if numpy.abs(pp - e).max() > 1e-12:
     return fail("product model does not multiply its components", pp.tolist(), e.tolist())
+  # a product is itself a success-probability model: products of products multiply all the way down, one factor more or less
+  third = ProbabilisticFailuresCDF(gp, thr[0])
+  for label, model, want in (("[[a, b], c]", ProductOfListOfProbabilisticFailures([ProductOfListOfProbabilisticFailures(pfs), third]), e * third.compute_probability_of_success(xs)),
+                             ("[a]", ProductOfListOfProbabilisticFailures(pfs[:1]), pfs[0].compute_probability_of_success(xs)),
+                             ("[[a], [b, c]]", ProductOfListOfProbabilisticFailures([ProductOfListOfProbabilisticFailures(pfs[:1]), ProductOfListOfProbabilisticFailures([pfs[1], third])]),
+                              e * third.compute_probability_of_success(xs))):
+    got = model.compute_probability_of_success(xs)
+    if numpy.abs(got - want).max() > 1e-12:
+      return fail(f"nested product model {label} does not multiply its components", got.tolist(), want.tolist())
   eif = ExpectedImprovementWithFailures(gp, prod)
   corf = eif.compute_core_components(xs, "func")
   vf = eif.evaluate_at_point_list(xs)
